@@ -102,7 +102,7 @@ class Ctx:
             if both:
                 # the recognised shape must also evaluate as prescribed (catches edits outside the matched fragment)
                 n_ok, diffs, unsupported = witness_fn()
-                if unsupported is None:
+                if unsupported is None or diffs:
                     if diffs:
                         for d in diffs[:3]:
                             r.violation(f"{label}::witness", d, tmp.instances[0]["where"] if tmp.instances else "")
